@@ -437,6 +437,12 @@ MUTANTS += [
     {"id": "global-twin-fstring-concat", "kind": "twin", "props": ALL, "global": "fstring-concat"},
     {"id": "global-twin-temp-for-sink", "kind": "twin", "props": ALL, "global": "temp-for-sink"},
     {"id": "global-twin-early-continue", "kind": "twin", "props": ALL, "global": "early-continue"},
+    {"id": "global-twin-append-loop-to-extend", "kind": "twin", "props": ALL, "global": "append-loop-to-extend"},
+    {"id": "global-twin-else-after-jump", "kind": "twin", "props": ALL, "global": "else-after-jump"},
+    {"id": "global-twin-reverse-z3-args", "kind": "twin", "props": ALL, "global": "reverse-z3-args"},
+    {"id": "global-twin-swap-eq", "kind": "twin", "props": ALL, "global": "swap-eq"},
+    {"id": "global-twin-sub-as-add-neg", "kind": "twin", "props": ALL, "global": "sub-as-add-neg"},
+    {"id": "global-twin-isinstance-split", "kind": "twin", "props": ALL, "global": "isinstance-split"},
 ]
 
 MUTANTS += [
